@@ -50,9 +50,12 @@ func (a *chunkAbort) unmarshal(raw []byte) error {
 		return fmt.Errorf("%w: actually is %s", ErrChunkTypeNotAbort, a.typ.String())
 	}
 
-	offset := chunkHeaderSize
-	for len(raw)-offset >= 4 {
-		e, err := buildErrorCause(raw[offset:])
+	// Only the bytes inside this chunk's own length belong to it: a bundled chunk that
+	// follows must not be parsed as an error cause.
+	body := a.raw
+	offset := 0
+	for len(body)-offset >= 4 {
+		e, err := buildErrorCause(body[offset:])
 		if err != nil {
 			return fmt.Errorf("%w: %v", ErrBuildAbortChunkFailed, err) //nolint:errorlint
 		}
